@@ -278,6 +278,8 @@ struct Rendered {
     per_hunk_display: String,
     headers_ok: Result<(), String>,
     nohint_writer: Vec<u8>,
+    /// a builder with a history: other settings first, the final ones last, rendered twice
+    history_writer: (Vec<u8>, Vec<u8>),
     swaps: u64,
 }
 
@@ -325,7 +327,27 @@ fn render<'a, T: DiffableStr + ?Sized + 'a>(d: &'a TextDiff<'a, 'a, 'a, T>, radi
     }
     let mut nohint_writer = vec![];
     ud2.to_writer(&mut nohint_writer).unwrap();
-    Rendered { trickle, trickle_hunks: th.out, writer, display, per_hunk_writer, per_hunk_display, headers_ok, nohint_writer, swaps: similar::verif::swap::swaps() }
+    // the builder as a history of setter calls (the last call of each setter decides), and one
+    // builder rendered twice
+    let mut ud3 = d.unified_diff();
+    ud3.context_radius(radius + 2).header("x", "y\tz").missing_newline_hint(false);
+    let _ = ud3.to_string();
+    ud3.context_radius(radius).missing_newline_hint(true);
+    match header {
+        Some((a, b)) => {
+            ud3.header(a, b);
+        }
+        None => {
+            // a header cannot be unset: start from a fresh builder that only has the radius history
+            ud3 = d.unified_diff();
+            ud3.context_radius(0).context_radius(radius);
+        }
+    }
+    let mut h1 = vec![];
+    ud3.to_writer(&mut h1).unwrap();
+    let mut h2 = vec![];
+    ud3.to_writer(&mut h2).unwrap();
+    Rendered { trickle, trickle_hunks: th.out, writer, display, per_hunk_writer, per_hunk_display, headers_ok, nohint_writer, history_writer: (h1, h2), swaps: similar::verif::swap::swaps() }
 }
 
 fn render_case(c: &Case) -> Result<Rendered, String> {
@@ -393,6 +415,12 @@ fn judge(c: &Case, r: &Rendered) -> Result<(usize, usize), (Kind, String)> {
     let want = remove_marker_lines(&r.writer);
     if r.nohint_writer != want {
         return Err(other(format!("missing_newline_hint(false) output {:?} != default output without marker lines {:?}", escape_bytes(&r.nohint_writer), escape_bytes(&want))));
+    }
+    if r.history_writer.0 != r.writer || r.history_writer.1 != r.writer {
+        return Err(other(format!(
+            "a builder configured through a history of setter calls (other radius / header / hint first, the final ones last; rendered once in between and twice at the end) gives {:?} and {:?}, a fresh builder {:?}",
+            escape_bytes(&r.history_writer.0[..r.history_writer.0.len().min(300)]), escape_bytes(&r.history_writer.1[..r.history_writer.1.len().min(300)]), escape_bytes(&r.writer[..r.writer.len().min(300)])
+        )));
     }
     // the quick function equals the builder
     if valid {
